@@ -1,0 +1,64 @@
+"""
+Verification hooks (no effect unless the environment variable SHEXER_VERIF is "1" AND a sink is installed).
+
+emit(event, **fields) hands a small snapshot of the state reached at a stage boundary to the sink installed
+by the verification harness. With the guard off, emit() returns immediately and nothing is computed.
+"""
+import os
+
+_ENABLED = os.environ.get("SHEXER_VERIF") == "1"
+_sink = None
+
+
+def set_sink(sink):
+    global _sink
+    _sink = sink
+
+
+def active():
+    return _ENABLED and _sink is not None
+
+
+def emit(event, **fields):
+    if _ENABLED and _sink is not None:
+        _sink(event, fields)
+
+
+def snapshot_instances(instances_dict):
+    """node -> list of class/shape keys (a copy: the profiler later rewrites the entries in place)"""
+    result = {}
+    for a_node, content in instances_dict.items():
+        classes = content[0] if type(content) == tuple else content
+        result[a_node] = list(classes)
+    return result
+
+
+def snapshot_profile(profile):
+    """(class, inverse?, property, kind, cardinality) -> count, as a list of 6-item lists"""
+    result = []
+    for a_class, features in profile.items():
+        dicts = features if type(features) == tuple else (features,)
+        for pos, a_dict in enumerate(dicts):
+            for a_prop, types in a_dict.items():
+                for a_type, cards in types.items():
+                    for a_card, a_count in cards.items():
+                        result.append([a_class, pos == 1, a_prop, a_type, a_card, a_count])
+    return result
+
+
+def snapshot_shapes(shapes_list):
+    result = []
+    for a_shape in shapes_list:
+        statements = []
+        for a_statement in a_shape.yield_statements():
+            is_choice = hasattr(a_statement, "st_types")
+            statements.append({"inv": a_statement.is_inverse,
+                               "p": a_statement.st_property,
+                               "k": "" if is_choice else a_statement.st_type,
+                               "ks": list(a_statement.st_types) if is_choice else [],
+                               "card": a_statement.cardinality,
+                               "n": a_statement.n_occurences,
+                               "ncom": len(a_statement.comments)})
+        result.append({"name": a_shape.name, "cls": a_shape.class_uri, "n": a_shape.n_instances,
+                       "statements": statements})
+    return result
